@@ -32,9 +32,17 @@ pub fn c10(tier: &str, seed: u64, meta: &str) -> Report {
     let pr = &p;
     // a store the engine itself writes, for the crash-point prefixes
     let store: Map = vec![("ami".into(), "আমই".into()), ("desh".into(), "দেস".into()), ("sesh".into(), "শেষ".into()), ("kotha".into(), "কোথা".into())];
+    // ... and two stores with long Bengali values behind keys of other lengths: whatever byte offset a reader
+    // might pick falls inside a three-byte character in at least one of the three alignments
+    let long: String = "আমাদেরসকলেরজন্যএকটিদীর্ঘশব্দ".into();
+    let store2: Map = vec![("am".into(), long.clone()), ("tumi".into(), "তুমই".into())];
+    let store3: Map = vec![("a".into(), long.clone()), ("amader".into(), "আমাদের".into()), ("tumi".into(), "তুমি".into())];
+    let stores: Vec<Vec<u8>> = vec![map_json(&store).into_bytes(), map_json(&store2).into_bytes(), map_json(&store3).into_bytes()];
+    let prefixes: Vec<Vec<u8>> = stores.iter().flat_map(|b| (0..=b.len()).map(move |j| b[..j].to_vec())).collect();
     let store_bytes = map_json(&store).into_bytes();
     let corpus = malformed_corpus();
-    let n_prefix = (store_bytes.len() + 1) as u64;
+    let n_prefix = prefixes.len() as u64;
+    let prefixes = &prefixes;
     let n_corpus = corpus.len() as u64;
     // cases: which file x content ; plus directory faults
     let total = 2 * (n_prefix + n_corpus) + if thorough { 400 } else { 60 };
@@ -44,7 +52,7 @@ pub fn c10(tier: &str, seed: u64, meta: &str) -> Report {
         let k = 2 * (n_prefix + n_corpus);
         let (which, content, dir_fault): (&str, Option<Vec<u8>>, &str) = if i < k {
             let j = i / 2;
-            let bytes = if j < n_prefix { store_bytes[..j as usize].to_vec() } else { corpus[(j - n_prefix) as usize].clone() };
+            let bytes = if j < n_prefix { prefixes[j as usize].clone() } else { corpus[(j - n_prefix) as usize].clone() };
             (if i % 2 == 0 { "selections" } else { "autocorrect" }, Some(bytes), "ok")
         } else {
             ("none", None, ["missing", "file", "blocked"][(i % 3) as usize])
@@ -102,11 +110,32 @@ pub fn c10(tier: &str, seed: u64, meta: &str) -> Report {
                     feed(w, &mut s, &[SEv::Finish], rep, "C10");
                 }
             }
+            // the directory appears later (the front-end or the user makes it): the next learning commit is saved, and
+            // a context started afterwards knows that choice - one failed save costs at most the choice it was about
+            if dir_fault == "missing" {
+                let _ = std::fs::create_dir_all(s.opts.user_dir());
+                let st = feed(w, &mut s, &pr.key_events("kotha", 0), rep, "C10");
+                if let Some((_, list, sel)) = last_full(&st) {
+                    if list.len() > 1 {
+                        let c = (sel + 1) % list.len();
+                        let chosen = list[c].clone();
+                        feed(w, &mut s, &[SEv::Commit(c), SEv::Restart], rep, "C10");
+                        let st2 = feed(w, &mut s, &pr.key_events("kotha", 0), rep, "C10");
+                        if let Some((_, l2, s2)) = last_full(&st2) {
+                            if l2.get(s2) != Some(&chosen) {
+                                rep.fail(describe("a save failed once (directory missing); after the directory was made, a later learned choice is still not saved (lost at restart)",
+                                    json!({"chosen": chosen, "candidates_after_restart": l2, "preselected_after_restart": s2, "store_file": std::fs::read(s.sel_path()).ok().map(|b| String::from_utf8_lossy(&b).to_string()), "session": s.describe()})));
+                            }
+                        }
+                        feed(w, &mut s, &[SEv::Finish], rep, "C10");
+                    }
+                }
+            }
         }
         rep.nontrivial_key(&format!("{} {:?} {}", which, content, dir_fault));
         if rep.samples.len() < 2 && i % 37 == 5 { rep.sample(describe("sample (no panic, behaves as if absent)", json!({"events": s.history.len()}))); }
     });
-    rep.extra.insert("rule".into(), json!(format!("fault states of the two optional user files: EVERY prefix (0..{} bytes) of a store the engine writes (all crash points of the non-atomic save), a corpus of {} malformed / wrong-shape / empty-string documents (incl. files of 0, 1 and 2 bytes, BOM, duplicate keys, 300 entries), each as the selection store and as the user auto-correct list; a user-data directory that is missing, occupied by a regular file, or missing below a regular file so that it cannot be made (the sandbox runs as root, so permission bits cannot make a directory read-only); each followed by typing (incl. stored key + known suffix), commits, a reload with a damaged auto-correct file, a restart and an option change; reference = the same events with the file absent", store_bytes.len(), n_corpus)));
+    rep.extra.insert("rule".into(), json!(format!("fault states of the two optional user files: EVERY prefix of three stores the engine writes ({} bytes the first; keys of three lengths and long Bengali values, so that every byte offset falls inside a character in one of them; all crash points of the non-atomic save), a corpus of {} malformed / wrong-shape / empty-string documents (incl. files of 0, 1 and 2 bytes, BOM, duplicate keys, 300 entries), each as the selection store and as the user auto-correct list; a user-data directory that is missing, occupied by a regular file, or missing below a regular file so that it cannot be made (the sandbox runs as root, so permission bits cannot make a directory read-only); for the missing directory also: the directory is made later, another choice is learned, the context restarted; each followed by typing (incl. stored key + known suffix), commits, a reload with a damaged auto-correct file, a restart and an option change; reference = the same events with the file absent", store_bytes.len(), n_corpus)));
     rep.extra.insert("exhaustive".into(), json!(true));
     rep
 }
@@ -157,7 +186,22 @@ pub fn c11(tier: &str, seed: u64, meta: &str) -> Report {
             2 => SEv::UpdateLayout(if rng.chance(1, 2) { PROBHAT.into() } else { crate::fx::SYNTHETIC.into() }, 64 | (rng.below(32) as u32) | ((rng.below(2) as u32) << 7)),
             3 => SEv::UpdateLayout(PHONETIC.into(), [2u32, 3, 10][rng.below(3)]),
             4 => {
-                if rng.chance(1, 3) {
+                if rng.chance(1, 4) {
+                    // two layout files in one directory whose names differ in letter case only
+                    let d = s.opts.user_home.join("layouts2");
+                    let _ = std::fs::create_dir_all(&d);
+                    let src = std::fs::read_to_string(PROBHAT).unwrap_or_default();
+                    let first = d.join("Probhat.json");
+                    let _ = std::fs::write(&first, &src);
+                    let mut v: Value = serde_json::from_str(&src).unwrap_or(json!({}));
+                    v["layout"]["Key_k_Normal"] = json!("ঘ");
+                    v["layout"]["Key_a_Normal"] = json!("ৌ");
+                    let second = d.join("probhat.json");
+                    let _ = std::fs::write(&second, v.to_string());
+                    let b = xbits(&s.opts);
+                    feed(w, &mut s, &[SEv::UpdateLayout(first.to_string_lossy().to_string(), b)], rep, "C11");
+                    SEv::UpdateLayout(second.to_string_lossy().to_string(), b)
+                } else if rng.chance(1, 3) {
                     // a different layout file with the same file name in another directory
                     let d = s.opts.user_home.join("layouts");
                     let _ = std::fs::create_dir_all(&d);
@@ -198,7 +242,7 @@ pub fn c11(tier: &str, seed: u64, meta: &str) -> Report {
         rep.nontrivial_key(&format!("{} {:?}", kind, upd));
         if rep.samples.len() < 2 && i % 101 == 7 { rep.sample(json!({"update": upd.json(), "events": s.history.len()})); }
     });
-    rep.extra.insert("rule".into(), json!("cases = (initial configuration, a history ending idle, update_engine, a continuation): phonetic option flips with user auto-correct edits in between (kept, deleted, entry removed, entries changed/added, emptied; modification times set explicitly), phonetic -> fixed, fixed -> phonetic, fixed -> fixed with another layout file (incl. a different file of the same name in another directory), fixed option flips (incl. the number-pad option followed by a number-pad key); the continuation is replayed in the updated context and in a context newly created with the new configuration over the same files; both also compared with the extracted model"));
+    rep.extra.insert("rule".into(), json!("cases = (initial configuration, a history ending idle, update_engine, a continuation): phonetic option flips with user auto-correct edits in between (kept, deleted, entry removed, entries changed/added, emptied; modification times set explicitly, alternately 0.3 s and 10 s apart), phonetic -> fixed, fixed -> phonetic, fixed -> fixed with another layout file (incl. a different file of the same name in another directory, and two files whose names differ in letter case only), fixed option flips (incl. the number-pad option followed by a number-pad key); the continuation is replayed in the updated context and in a context newly created with the new configuration over the same files; both also compared with the extracted model"));
     rep
 }
 
@@ -215,9 +259,37 @@ pub fn c01(tier: &str, seed: u64, meta: &str) -> Report {
         m["codes"].as_array().unwrap().iter().map(|c| c.as_u64().unwrap() as u16).collect()
     };
     let codes = &codes;
-    let mut rep = par_items(sessions + 2, |_| Worker2::new(fpr.p.data.clone()), |w, i, rep| {
+    // every row of the bundled data is typed once (a row of rare shape - an empty value, an odd character - is a
+    // key event like any other): all suffix keys behind two bases, the emoticons, auto-correct keys, emoji names
+    let mut sweep: Vec<String> = Vec::new();
+    for b in ["jomi", "ma"] { for k in &fp.p.suffix_keys { sweep.push(format!("{}{}", b, k)); } }
+    sweep.extend(fp.p.emoticons.iter().cloned());
+    sweep.extend(fp.p.ac_keys.iter().enumerate().filter(|(n, _)| thorough || n % 6 == (seed % 6) as usize).map(|(_, k)| k.clone()));
+    sweep.extend(fp.p.emoji_names.iter().enumerate().filter(|(n, _)| thorough || n % 6 == (seed % 6) as usize).map(|(_, k)| k.clone()));
+    let sweep: Vec<String> = sweep.into_iter().filter(|t| fp.p.typeable(t) && !t.is_empty()).collect();
+    let sweep_chunks: u64 = 32;
+    let sweep = &sweep;
+    let mut rep = par_items(sessions + 2 + sweep_chunks, |_| Worker2::new(fpr.p.data.clone()), |w, i, rep| {
         let mut rng = Rng::new(seed ^ i.wrapping_mul(0xC01));
         let home = std::path::PathBuf::from("/nonexistent");
+        if i >= sessions + 2 {
+            let k = (i - sessions - 2) as usize;
+            let mut s = match psession(w, [3u32, 2, 11, 7][k % 4], true, None, None, "c01d") { Ok(s) => s, Err(e) => { rep.fail(json!({"what": "creating a context panicked", "panic": e})); return; } };
+            for (n, t) in sweep.iter().enumerate() {
+                if n % sweep_chunks as usize != k { continue; }
+                if s.history.len() > 3000 { s.history.clear(); }
+                let mut evs = fpr.p.key_events(t, 0);
+                evs.push(if n % 3 == 0 { SEv::Commit(0) } else { SEv::Finish });
+                for e in evs {
+                    breadcrumb(&s, &e);
+                    let st = feed(w, &mut s, &[e.clone()], rep, "C01").pop().unwrap();
+                    crumb_done();
+                    rep.evaluations += 1;
+                    if let Out::Panic(p) = &st.out { rep.fail(json!({"what": "an in-contract call panicked", "panic": p, "method": "phonetic", "typed": t, "session": s.describe()})); return; }
+                }
+            }
+            return;
+        }
         if i >= sessions {
             // one very long word in each method (time and size blow-up)
             let n = if thorough { 3000 } else { 600 };
@@ -288,7 +360,7 @@ pub fn c01(tier: &str, seed: u64, meta: &str) -> Report {
         }
         if rep.samples.len() < 1 { rep.sample(json!({"method": if phonetic { "phonetic" } else { "fixed" }, "initial": s.initial, "first_events": s.history.iter().take(12).map(|e| e.json()).collect::<Vec<_>>()})); }
     });
-    rep.extra.insert("rule".into(), json!(format!("{} sessions of {} random in-contract events in both methods under random option sets (all 11 booleans), with and without database, Probhat and the synthetic layout (multi-code-point values): keys from the 111 published codes and from the layout/alphabet with arbitrary modifier bytes and a selection valid for the list shown before, backspace with and without ctrl, commit with an index inside the most recently returned list (also while idle), finish, restart, update_engine while idle with option changes and user auto-correct edits; one very long word per method for the time clause (slowest event recorded); every call under catch_unwind, every event also replayed in the extracted model (whose commit is partial: an index outside the stored list is a panic there)", sessions, events_per)));
+    rep.extra.insert("rule".into(), json!(format!("{} sessions of {} random in-contract events in both methods under random option sets (all 11 booleans), with and without database, Probhat and the synthetic layout (multi-code-point values): keys from the 111 published codes and from the layout/alphabet with arbitrary modifier bytes and a selection valid for the list shown before, backspace with and without ctrl, commit with an index inside the most recently returned list (also while idle), finish, restart, update_engine while idle with option changes and user auto-correct edits; one very long word per method for the time clause (slowest event recorded); a sweep over the bundled data rows (all 737 suffix keys behind two bases, all emoticons, a sixth - thorough: all - of the auto-correct keys and emoji names) typed key by key; every call under catch_unwind, every event also replayed in the extracted model (whose commit is partial: an index outside the stored list is a panic there)", sessions, events_per)));
     rep
 }
 
